@@ -96,7 +96,12 @@ func init() {
 		devnull, _ := os.OpenFile(os.DevNull, os.O_WRONLY, 0)
 		os.Stdin, os.Stdout = r, devnull
 		defer func() { os.Stdin, os.Stdout = savedIn, savedOut; r.Close(); devnull.Close() }()
-		go func() { w.WriteString(answers); w.Close() }()
+		cancelCase := a[2] == "CANCEL" // nobody answers; the client's context ends while the host is pending
+		if !cancelCase {
+			go func() { w.WriteString(answers); w.Close() }()
+		} else {
+			defer w.Close()
+		}
 
 		throttle := make(chan struct{}, 1)
 		throttle <- struct{}{}
@@ -110,6 +115,11 @@ func init() {
 		res := make(chan error, 1)
 		go func() { res <- cb.Wrap()(server, remote, key) }()
 		verdict := "timeout"
+		wait := 8 * time.Second
+		if cancelCase {
+			time.AfterFunc(300*time.Millisecond, cancel)
+			wait = 1800 * time.Millisecond
+		}
 		select {
 		case err := <-res:
 			if err == nil {
@@ -117,7 +127,7 @@ func init() {
 			} else {
 				verdict = "refuse"
 			}
-		case <-time.After(8 * time.Second):
+		case <-time.After(wait):
 		}
 		time.Sleep(30 * time.Millisecond) // let a trusting prompt finish its rename
 		now, _ := os.ReadFile(path)
